@@ -20,6 +20,46 @@ pub open spec fn replace_char(s: Seq<char>, c: char, to: Seq<char>) -> Seq<char>
     else { replace_char(s.drop_last(), c, to) + (if s.last() == c { to } else { seq![s.last()] }) }
 }
 
+// &str patterns
+pub uninterp spec fn pat_is_str<P>(p: P) -> bool;
+pub uninterp spec fn pat_str<P>(p: P) -> Seq<char>;
+pub broadcast axiom fn axiom_pat_str(p: &str)
+    ensures #![trigger pat_is_str::<&str>(p)] #![trigger pat_str::<&str>(p)]
+            pat_is_str::<&str>(p) && pat_str::<&str>(p) == p@ && !pat_is_char::<&str>(p);
+pub broadcast axiom fn axiom_pat_char_not_str(c: char)
+    ensures #[trigger] pat_is_str::<char>(c) == false;
+
+pub open spec fn has_prefix(s: Seq<char>, p: Seq<char>) -> bool {
+    p.len() <= s.len() && s.subrange(0, p.len() as int) == p
+}
+pub open spec fn has_suffix(s: Seq<char>, p: Seq<char>) -> bool {
+    p.len() <= s.len() && s.subrange(s.len() - p.len(), s.len() as int) == p
+}
+pub open spec fn has_infix(s: Seq<char>, p: Seq<char>) -> bool {
+    exists|i: int| 0 <= i && i + p.len() <= s.len() && #[trigger] s.subrange(i, i + p.len()) == p
+}
+
+pub assume_specification<P: Pattern>[ str::starts_with::<P> ](s: &str, pat: P) -> (r: bool)
+    ensures
+        pat_is_str(pat) ==> r == has_prefix(s@, pat_str(pat)),
+        pat_is_char(pat) ==> r == (s@.len() > 0 && s@[0] == pat_char(pat));
+
+pub assume_specification<P: Pattern>[ str::ends_with::<P> ](s: &str, pat: P) -> (r: bool)
+    where for<'a> P::Searcher<'a>: std::str::pattern::ReverseSearcher<'a>
+    ensures
+        pat_is_str(pat) ==> r == has_suffix(s@, pat_str(pat)),
+        pat_is_char(pat) ==> r == (s@.len() > 0 && s@.last() == pat_char(pat));
+
+pub assume_specification<P: Pattern>[ str::contains::<P> ](s: &str, pat: P) -> (r: bool)
+    ensures
+        pat_is_str(pat) ==> r == has_infix(s@, pat_str(pat)),
+        pat_is_char(pat) ==> r == s@.contains(pat_char(pat));
+
+// <[T]>::contains — ASSUMED for element types whose PartialEq is structural equality of the
+// spec value (used with T = &str, where equal contents <==> equal values by axiom_str_ext)
+pub assume_specification<T: std::cmp::PartialEq>[ <[T]>::contains ](v: &[T], x: &T) -> (r: bool)
+    ensures r == v@.contains(*x);
+
 pub assume_specification<P: Pattern>[ str::replace::<P> ](s: &str, from: P, to: &str) -> (r: String)
     ensures pat_is_char(from) ==> r@ == replace_char(s@, pat_char(from), to@);
 } // verus!
